@@ -100,6 +100,29 @@ func c20Decrypt(priv, sealed string) (plain string, err error) {
 	return learn.Decrypt(priv, sealed)
 }
 
+// c20Model restarts the model process once per question if it went away (the
+// sandbox is shared; a model answer is a pure function of the question, so a
+// retry cannot hide a difference).
+type c20Model struct {
+	m *Model
+	r *Result
+}
+
+func (c *c20Model) Ask(s string) (string, error) {
+	a, err := c.m.Ask(s)
+	if err == nil {
+		return a, nil
+	}
+	c.m.Close()
+	m2, err2 := StartModel("seal")
+	if err2 != nil {
+		return "", err
+	}
+	c.m = m2
+	c.r.Note("model process restarted after: %v", err)
+	return c.m.Ask(s)
+}
+
 // ---------- text generators ----------
 
 var c20RuneRanges = [][2]rune{{0x20, 0x7e}, {0xa0, 0x24f}, {0x370, 0x3ff}, {0x4e00, 0x4e40}, {0x1f300, 0x1f3ff},
@@ -146,7 +169,7 @@ func c20Workers() int {
 
 // ---------- part A ----------
 
-func c20Envelope(cfg Config, r *Result, model *Model, keys []c20Keys) {
+func c20Envelope(cfg Config, r *Result, model *c20Model, keys []c20Keys) {
 	// round trips
 	nRound := cfg.N(60, 600)
 	lengths := []int{0, 1, 2, 5, 17, 64, 300, 2000, 20000}
@@ -291,7 +314,7 @@ type c20TamperCase struct {
 	want   byte   // model class, 0 = no prediction
 }
 
-func c20Sweep(cfg Config, r *Result, model *Model, keys []c20Keys, v c20SealedValue, all bool) {
+func c20Sweep(cfg Config, r *Result, model *c20Model, keys []c20Keys, v c20SealedValue, all bool) {
 	priv := keys[v.Key].KP.Private
 	tStart := time.Now()
 	ans, err := model.Ask(Lst(Sym("sweep"), Str(hex.EncodeToString(v.Raw))).String())
@@ -327,7 +350,7 @@ func c20Sweep(cfg Config, r *Result, model *Model, keys []c20Keys, v c20SealedVa
 	// 3. every single-character corruption of the base64 text, 4. every truncation of it
 	var b64cases []c20TamperCase
 	for pos := 0; pos < len(v.Sealed); pos++ {
-		for _, b := range c20Candidates(v.Sealed[pos], all) {
+		for _, b := range c20Candidates(v.Sealed[pos], all && cfg.Tier == "thorough") {
 			s2 := []byte(v.Sealed)
 			s2[pos] = b
 			b64cases = append(b64cases, c20TamperCase{string(s2), fmt.Sprintf("char %d := %#02x", pos, b), 0})
@@ -438,7 +461,12 @@ func c20Sweep(cfg Config, r *Result, model *Model, keys []c20Keys, v c20SealedVa
 	_ = nModel
 	mode := "8 bit flips per position"
 	if all {
-		mode = "all 255 other values per position"
+		mode = "all 255 other values per envelope byte"
+		if cfg.Tier == "thorough" {
+			mode += " and per base64 character"
+		} else {
+			mode += ", 8 bit flips per base64 character"
+		}
 	}
 	r.Note("sweep of a sealed value: %d-bit key, text %d bytes, envelope %d bytes, base64 %d chars, %s, %d cases", keys[v.Key].Bits, len(v.Text), len(v.Raw), len(v.Sealed), mode, len(cases))
 	r.Note("  model sweep %.1fs, +classify %.1fs, +decrypt %.1fs, total %.1fs", tModel.Seconds(), tClassify.Seconds(), tDecrypt.Seconds(), time.Since(tStart).Seconds())
@@ -506,7 +534,7 @@ func c20FmClass(err error) string {
 	return "badkey"
 }
 
-func c20Frontmatters(cfg Config, r *Result, model *Model, keys []c20Keys, dir string) {
+func c20Frontmatters(cfg Config, r *Result, model *c20Model, keys []c20Keys, dir string) {
 	n := cfg.N(150, 2000)
 	opsPool := []string{"seal", "seal", "seal", "unseal", "unseal", "unseal", "unseal-wrong", "unseal-nokey", "set-answer"}
 	for i := 0; i < n; i++ {
@@ -711,7 +739,7 @@ var c20Modes = []c20Mode{
 type c20Env struct {
 	cfg   Config
 	r     *Result
-	model *Model
+	model *c20Model
 	keys  []c20Keys
 	dir   string
 	seq   int
@@ -1171,7 +1199,7 @@ func c20LoadRepoQuestion(p string) (class, atype, answer, gen string, outs []str
 
 // ---------- is_space against unicode.IsSpace ----------
 
-func c20Spaces(r *Result, model *Model) {
+func c20Spaces(r *Result, model *c20Model) {
 	ans, err := model.Ask("(spaces)")
 	var want []string
 	for c := rune(0); c <= unicode.MaxRune; c++ {
@@ -1188,7 +1216,7 @@ func c20Spaces(r *Result, model *Model) {
 
 // ---------- replay ----------
 
-func c20Replay(cfg Config, r *Result, model *Model, dir string) {
+func c20Replay(cfg Config, r *Result, model *c20Model, dir string) {
 	b, err := os.ReadFile(cfg.Replay)
 	if err != nil {
 		r.Violate(Violation{Kind: "correspondence", Key: "replay-unreadable", Detail: err.Error()})
@@ -1246,19 +1274,20 @@ func c20Replay(cfg Config, r *Result, model *Model, dir string) {
 }
 
 func runC20(cfg Config, r *Result) {
-	model, err := StartModel("seal")
+	m0, err := StartModel("seal")
 	if err != nil {
 		r.Violate(Violation{Kind: "correspondence", Key: "model-start", Detail: err.Error()})
 		return
 	}
-	defer model.Close()
+	model := &c20Model{m: m0, r: r}
+	defer func() { model.m.Close() }()
 	dir, err := os.MkdirTemp("", "c20-")
 	if err != nil {
 		r.Violate(Violation{Kind: "correspondence", Key: "harness-io", Detail: err.Error()})
 		return
 	}
 	defer os.RemoveAll(dir)
-	r.Rule = "A: Decrypt(Encrypt(t)) = t for random texts (0..20000 bytes, any Unicode, stray bytes) under 2 fresh key pairs (1024, 2048 bit); for 3 (quick) / 20 (thorough) sealed values every single-byte corruption of the envelope (all 255 values per position; quick: 255 for the first value, the 8 bit flips for the others), every truncation, the same on the base64 text, and the other private key: result must be rejection or the original text, and the rejection stage must be the one the model predicts under the ideal functionality; model unframe/frame on the real envelopes and on random garbage. " +
+	r.Rule = "A: Decrypt(Encrypt(t)) = t for random texts (0..20000 bytes, any Unicode, stray bytes) under 2 fresh key pairs (1024, 2048 bit); for 3 (quick) / 20 (thorough) sealed values every single-byte corruption of the envelope bytes and of the base64 text (thorough: all 255 other values per position; quick: all 255 per envelope byte for the first value, otherwise the 8 single-bit flips per position), every truncation of both, and the other private key: result must be rejection or the original text, and the rejection stage must be the one the model predicts under the ideal functionality; model unframe/frame on the real envelopes and on random garbage. " +
 		"B: random Seal/Unseal/Unseal-with-wrong-key sequences on the real front matter vs the model. " +
 		"C: every non-empty subset of letters a..(one beyond the last choice) x every equal/different assignment for 2..5 choices (multiple choice), every single letter of those and z (single choice), through markdown files whose outputs are produced by running evy, in plain and sealed / wrong key / no key / ignored / verification-none modes; text answers with white-space variants. " +
 		"non-trivial = non-empty text (A), >= 2 operations (B), every question (C); distinct = distinct canonical case"
